@@ -27,7 +27,7 @@ def make_sandbox(name):
 def cleanup_sandbox(name):
     base = f"/tmp/mutsb-{name}"
     subprocess.run(f"git -C /repo worktree remove --force {base}/repo; git -C /repo worktree prune; rm -rf {base}", shell=True)
-ENV = dict(os.environ, CARGO_NET_OFFLINE="true")
+ENV = dict(os.environ, CARGO_NET_OFFLINE="true", CVH_WATCHDOG_S=os.environ.get("CVH_WATCHDOG_S", "240"))
 
 def sh(cmd, cwd=None, timeout=3600):
     r = subprocess.run(cmd, cwd=cwd, shell=True, capture_output=True, text=True, env=ENV, timeout=timeout)
